@@ -3,5 +3,5 @@ CONSTANTS
   Vers = {0, 1, 2, 3, 4, 5, 6, 7}
   PayClasses = {0, 1, 2, 3, 7, 1003, 1002, 1001, 1000}
   MicrosSet = {0, 1, 999999}
-INVARIANTS DomainOk Thm_RoundTrip Thm_NormalForm Thm_Idempotent Thm_NoWrap MaxReached EmitRecords
+INVARIANTS DomainOk Thm_RoundTrip Thm_NormalForm Thm_Idempotent Thm_NoWrap Thm_RoundTripX XReached MaxReached EmitRecords
 CHECK_DEADLOCK FALSE
